@@ -520,10 +520,14 @@ def runBody (cf : Cfg) : List (Op × Bool) → M Unit
 /-- `db_session.__exit__` / `_commit_or_rollback` -/
 def exitSession (cf : Cfg) (bodyResult : Except Exc Unit) : M Unit :=
   match bodyResult with
-  | .ok _ => do
-      coreCommit cf
-      let s ← getS
-      if s.hasCache then cacheClose cf false          -- for cache in _get_caches(): cache.release()
+  | .ok _ =>
+      tryCatch (do
+          coreCommit cf
+          let s ← getS
+          if s.hasCache then cacheClose cf false        -- for cache in _get_caches(): cache.release()
+        ) (fun e => do
+          tryCatch (coreRollback cf) (fun _ => pure ())   -- except: rollback_and_reraise(sys.exc_info())
+          raise e)
   | .error e => do
       tryCatch (coreRollback cf) (fun _ => pure ())   -- the rollback error is swallowed, the body's exception continues
       raise e
